@@ -100,6 +100,7 @@ class CallGraph:
     def _collect_field_types(self):
         self.attr_types = {}       # dunder attribute set on foreign objects: `fn.__ptera_stack__ = Class(...)` -> {attr: class qual}
         for q, fi in self.repo.functions.items():
+            made = {}       # local name -> class, for `st = Class(...)` followed by `fn.__ptera_stack__ = st`
             for n in walk_local(fi.node):
                 if isinstance(n, ast.Assign) and isinstance(n.value, ast.Call):
                     cq = self._class_of_name(n.value.func, fi.module)
@@ -107,6 +108,13 @@ class CallGraph:
                         for t in n.targets:
                             if isinstance(t, ast.Attribute) and not (isinstance(t.value, ast.Name) and t.value.id == "self") and t.attr.startswith("__"):
                                 self.attr_types[t.attr] = cq
+                            elif isinstance(t, ast.Name):
+                                made[t.id] = cq
+            for n in walk_local(fi.node):
+                if isinstance(n, ast.Assign) and isinstance(n.value, ast.Name) and n.value.id in made:
+                    for t in n.targets:
+                        if isinstance(t, ast.Attribute) and not (isinstance(t.value, ast.Name) and t.value.id == "self") and t.attr.startswith("__"):
+                            self.attr_types[t.attr] = made[n.value.id]
         for q, fi in self.repo.functions.items():
             if fi.cls is None:
                 continue
